@@ -171,7 +171,16 @@ def tridonic_case(seed, part, i, res):
     dmap.add_type(short_address=3, instance_number=1, instance_type=1)
     dmap.add_type(short_address=3, instance_number=5, instance_type=4)
     picker = simlib.Picker(r, overrides={"tri.queue_delay": 0, "tri.report_delay": 0, "tri.outcome_delay": 0, "tri.answer_delay": 0})
-    sim = simlib.Sim("tridonic", picker, dev_inst_map=dmap, register_callbacks=False)
+    # every fourth history has company: a second Tridonic gateway (second bus, second driver instance) whose reports arrive
+    # at the very same instants; each instance's subscribers hear their own bus only
+    twin = i % 4 == 3
+    sim = simlib.Sim("tridonic", picker, dev_inst_map=dmap, register_callbacks=False,
+                     answer2=(lambda w_, v_, i_, dt_: None) if twin else None)
+    # ... and every third starts with traffic the gateway reports while the driver is still shaking hands with it
+    early = i % 3 == 1
+    twin_log = []
+    twin_sent = []
+    early_lost = []
     segs = []
     t = 1.0
     n_seg = r.choice([1, 2, 3])
@@ -207,10 +216,24 @@ def tridonic_case(seed, part, i, res):
     base_log = []
     own_wire_t = []
 
+    early_reports = []
+    if early:
+        # ENABLE DEVICE TYPE 8 + ACTIVATE (a DT8 command) from another master, reported right after the device was opened
+        early_reports = [(0.0006, "F", 16, 0xC108), (0.0012, "F", 16, 0x6FE2)]
+        all_reports[:0] = early_reports
+        res.hit("reports_during_handshake")
+
     async def main(sim):
-        await sim.connect()
         d, dev, w = sim.driver, sim.dev, sim.world
+        # subscribers exist before the connection does
         d.bus_traffic.register(lambda drv, c, rsp, e: base_log.append((w.now, c, rsp, e)))
+        if twin:
+            sim.driver2.bus_traffic.register(lambda drv, c, rsp, e: twin_log.append((w.now, drv, c)))
+            res.hit("twin_histories")
+        for (tt, kind, width, value) in early_reports:
+            rep = W.tridonic_report(W.TRI_OBSERVE, W.TRI_16, value, 0)
+            w.at(tt, lambda rep=rep: dev.rx.append(rep) if dev.fd is not None else early_lost.append(1))
+        await sim.connect()
         handles = {}
 
         def join(k):
@@ -230,6 +253,8 @@ def tridonic_case(seed, part, i, res):
             if l is not None:
                 w.at(boundaries[l] + 0.01, lambda k=k: leave(k))
         for (tt, kind, width, value) in all_reports:
+            if (tt, kind, width, value) in early_reports:
+                continue
             if kind == "F":
                 rep = W.tridonic_report(W.TRI_OBSERVE, W.TRI_16 if width == 16 else W.TRI_24, value, 0)
             elif kind == "B":
@@ -239,6 +264,11 @@ def tridonic_case(seed, part, i, res):
             else:
                 rep = W.tridonic_report(W.TRI_OBSERVE, W.TRI_NO, 0, 0)
             w.at(tt, lambda rep=rep: dev.rx.append(rep) if dev.fd is not None else None)
+            if twin and kind == "F" and tt >= 1.0:
+                # the other bus carries a different frame at the same instant
+                rep2 = W.tridonic_report(W.TRI_OBSERVE, W.TRI_16, 0x0100 + (len(twin_sent) % 200), 0)
+                twin_sent.append(0x0100 + (len(twin_sent) % 200))
+                w.at(tt, lambda rep2=rep2: sim.dev2.rx.append(rep2) if sim.dev2.fd is not None else None)
         # gateway chatter that is no bus traffic, in the quiet gaps: a status report other than 'framing error', an
         # unsolicited reply to an initialisation command, a report of a mode the driver does not know - none of it is a
         # frame, none of it may produce or disturb a report
@@ -277,6 +307,10 @@ def tridonic_case(seed, part, i, res):
         return True
 
     out, stalled = sim.run(main)
+    if early_lost:
+        res.inconclusive.append("tridonic: the device was not open yet when the handshake-time reports were due (harness timing)")
+        sim.close()
+        return
     res.evaluations += 1
     res.hit("tridonic_histories")
     res.digests.add(digest(all_reports, subs, [str(c) for c in own]))
@@ -363,6 +397,11 @@ def tridonic_case(seed, part, i, res):
                 res.violation("C20/tridonic/subscriber-delivery", f"subscriber {k} (joined at {lo}, left at {hi}) received {len(got_k)} reports, "
                               f"{len(want_k)} were made in that interval", {**wit, "subscriber": k})
                 return
+        if twin:
+            seen2 = [c.frame.as_integer for (_t, drv, c) in twin_log]
+            if any(drv is not sim.driver2 for (_t, drv, c) in twin_log) or seen2 != twin_sent:
+                res.violation("C20/tridonic/twin-delivery", f"a second Tridonic instance in the same process: its subscriber received {len(seen2)} reports "
+                              f"({[hex(x) for x in seen2][:6]}...), its bus carried {len(twin_sent)} frames ({[hex(x) for x in twin_sent][:6]}...)", wit)
         if sim.loop.errors:
             res.violation("C20/tridonic/internal-error", f"exception in a callback/task: {sim.loop.errors[0]}", wit)
         if i == 0:
@@ -406,7 +445,10 @@ def serial_case(driver, seed, part, i, res):
     import gc
     r = rng(seed, "C20", driver, part, i)
     dmap = DeviceInstanceTypeMapper()
-    dmap.add_type(short_address=3, instance_number=1, instance_type=1)
+    # the application may hand the driver its (still empty) map and fill it afterwards through its own reference
+    fill_later = i % 3 == 2
+    if not fill_later:
+        dmap.add_type(short_address=3, instance_number=1, instance_type=1)
     picker = simlib.Picker(r)
     sim = simlib.Sim(driver, picker, dev_inst_map=dmap)
     txs, tags = gen_transactions(r, r.randint(2, 8))
@@ -461,6 +503,9 @@ def serial_case(driver, seed, part, i, res):
     async def main(sim):
         await sim.connect()
         d, dev, w = sim.driver, sim.dev, sim.world
+        if fill_later:
+            dmap.add_type(short_address=3, instance_number=1, instance_type=1)
+            res.hit("map_filled_after_construction")
 
         def join(k):
             queues[k] = d.new_dali_rx_queue()
